@@ -18,7 +18,7 @@ from common import *
 FUEL_TREE = 1200          # refinement depth bound given to the model (doubles: < 1100 halvings)
 F17 = "F17:tree-merge-flagged-particle-lingers"
 F17R = "F17:restart-with-flagged-particle-crashes"
-F18 = "F18:particle-on-upper-box-face-dropped-from-tree"
+F18 = "C15-N1:particle-on-root-box-face-dropped-from-tree"
 
 _rebound = None
 _lib = None
@@ -27,7 +27,7 @@ ROOT_RULE = ["wrap"]      # how particle.c / tree.c bring a root-box index into 
 
 
 def read_root_rule(d):
-    """mini-translator: `(floor(..)+N)%N` (pinned source) or clamp to [0,N-1] (fixes/F18.diff)?  Returns None if
+    """mini-translator: `(floor(..)+N)%N` (pinned source) or clamp to [0,N-1] (fixes/C15-N1-rootbox-face-reinsert.diff)?  Returns None if
     neither form is recognised in both places that compute a root-box index."""
     import re
     ps = open(os.path.join(d, "src", "particle.c")).read()
@@ -156,7 +156,7 @@ def gen_config(rng, kind="sim", allow_face=True):
             k = rng.randint(0, nr)
             pos[a] = rng.choice([b / 2, -b / 2, math.nextafter(b / 2, 0.0), math.nextafter(-b / 2, 0.0), -b / 2 + k * rs, 0.0])
         if not face and any(axis_misfiled(v, b, rs, nr) for v, (b, nr) in zip(pos, ((bx, nx), (by, ny), (bz, nz)))):
-            continue        # on a root-box face: only in the `face` configurations (known finding F18)
+            continue        # on a root-box face: only in the `face` configurations (known finding C15-N1)
         if tuple(pos) in seen:
             continue        # coincident particles are refused by the code (error message); separate generator
         seen.add(tuple(pos))
@@ -552,8 +552,7 @@ def run_sim(cfg, out, model_budget):
         if cfg["boundary"] in ("periodic", "shear") and not merging:
             if sorted(hs) != sorted(before):
                 lost = sorted(set(before) - set(hs))
-                k = F18 if all(f18_class(cfg, before[h]) or True for h in lost) and cfg.get("face") and lost else "count-changed"
-                out.viol.append((k, "after step %d the set of particles changed under %s boundaries (lost hashes %s, N %d -> %d)"
+                out.viol.append(("count-changed", "after step %d the set of particles changed under %s boundaries (lost hashes %s, N %d -> %d)"
                                  % (step, cfg["boundary"], lost[:5], len(before), len(after)), dict(cfg=cfg, step=step)))
         if free_flight and cfg["boundary"] in ("periodic", "open"):
             # straight-line shadow in exact rational arithmetic
@@ -761,7 +760,7 @@ def worker(job, path):
         out.notes["exception"] = traceback.format_exc()[-1500:]
     if job["cfg"].get("face") and out.notes.get("f18_seen"):
         # once a particle sits in a cell that does not contain it the next update can damage tree and heap
-        # (known finding F18): everything but F17 observed in such a run is attributed to it
+        # (known finding C15-N1): everything but F17 observed in such a run is attributed to it
         # (tree / particle-array symptoms only; the boundary oracles keep their own keys)
         sym = ("tree-", "step-error", "update-error", "duplicate-particle", "walk-theta0", "flagged-particle")
         out.viol = [((F18 if (k.startswith(sym) or (k == "count-changed" and job["kind"] == "sim")) else k), w, r) for k, w, r in out.viol]
